@@ -1,6 +1,7 @@
 package main
 
 import (
+	"fmt"
 	"go/ast"
 	"go/token"
 	"go/types"
@@ -132,6 +133,7 @@ func ruleReaderLoops(prog *Program, rep *Report) {
 		"L-eof: in every reader entry the 'last' argument of the dispatch call is a flag that is set to true only under a test of the read error against io.EOF",
 		"L-bytes: the buffer handed to the dispatch function is the read buffer resliced to exactly the count returned by Read (buf = buf[:cnt] directly after every Read, buf[:cap(buf)] before re-reading), optionally minus the BOM skip",
 		"L-stop: an error returned by the dispatch function leaves the loop (return) before the next read",
+		"L-eoftwins: the blocks of a reader entry that handle the error of the first Read and of the Read in the loop have the same statements (the result does not depend on which Read carried io.EOF)",
 		"L-final: no return statement sits in code of the entry that runs only when Read reported io.EOF (after `if !errors.Is(err, io.EOF) { return }`): the entry goes on to call the dispatch function with the end-of-input flag")
 	for _, spec := range readerEntries {
 		rf := analyseReader(prog, spec, rep)
@@ -277,6 +279,46 @@ func ruleReaderLoops(prog *Program, rep *Report) {
 				rep.Discharge("L-final", key, pos, "no return in code that runs only for io.EOF before the final dispatch call")
 			} else {
 				rep.Violate(Finding{Rule: "L-final", Key: key + ":return-on-eof", Pos: prog.Pos(early[0]), Msg: "the reader entry returns in code that runs only when Read reported io.EOF, before the dispatch function was called with the end-of-input flag: a number that ends the input is never delivered and unfinished input is not reported"})
+			}
+		}
+		// L-eoftwins: the first read and the read in the loop handle the error of Read by the same statements
+		{
+			var bodies []string
+			var at []token.Pos
+			ast.Inspect(rf.fd.Body, func(n ast.Node) bool {
+				is, ok := n.(*ast.IfStmt)
+				if !ok || is.Else != nil || mentionsEOF(info, is.Cond) {
+					return true
+				}
+				// `if err != nil { ... io.EOF ... }`
+				inner := false
+				for _, st := range is.Body.List {
+					if ii, ok := st.(*ast.IfStmt); ok && mentionsEOF(info, ii.Cond) {
+						inner = true
+					}
+				}
+				if !inner {
+					return true
+				}
+				b := strings.Join(twinBodyLines(&ast.FuncDecl{Body: is.Body}), " | ")
+				// the two spellings of the test are one test here (ValidateReader uses both)
+				b = strings.ReplaceAll(strings.ReplaceAll(b, "!errors.Is(err, io.EOF)", "NOT-EOF"), "err != io.EOF", "NOT-EOF")
+				bodies = append(bodies, b)
+				at = append(at, is.Pos())
+				return false
+			})
+			if len(bodies) >= 2 {
+				same := true
+				for _, b := range bodies[1:] {
+					if b != bodies[0] {
+						same = false
+					}
+				}
+				if same {
+					rep.Discharge("L-eoftwins", key, pos, fmt.Sprintf("%d read-error blocks with the same statements", len(bodies)))
+				} else {
+					rep.Violate(Finding{Rule: "L-eoftwins", Key: key + ":read-error-blocks", Pos: prog.Pos(at[len(at)-1]), Msg: fmt.Sprintf("the blocks that handle the error of the first Read and of the Read in the loop differ: [%s] versus [%s]: what the entry returns then depends on which Read carried io.EOF", bodies[0], bodies[len(bodies)-1])})
+				}
 			}
 		}
 		// L-bytes: every Read(buf) is followed by buf = buf[:cnt]
